@@ -123,6 +123,8 @@ def _sample_real(lo, hi):
 
 
 def real(name, lo=None, hi=None):
+    if name in S.drawn and name not in S.inputs:
+        return S.drawn[name]          # the same name is the same input, as in the symbolic interpretation
     if name not in S.inputs:
         S.missing.append(name)
     v = float(_num(S.inputs.get(name), _sample_real(lo, hi)))
@@ -133,6 +135,8 @@ def real(name, lo=None, hi=None):
 
 
 def integer(name, lo=None, hi=None):
+    if name in S.drawn and name not in S.inputs:
+        return S.drawn[name]
     if name not in S.inputs:
         S.missing.append(name)
     a = 0 if lo is None else int(lo)
@@ -200,6 +204,18 @@ def delay_response(k, dt):
     def delay(f):
         return np.exp(-2j * np.pi * np.asarray(f) * k * dt)
     return delay
+
+
+def pick(name, arr):
+    return fresh_index(name, len(arr))
+
+
+def at(arr, k):
+    return arr[k]
+
+
+def sigma(fn, n):
+    return sum(fn(k) for k in range(int(n)))
 
 
 def fresh_index(name, n):
